@@ -5,7 +5,7 @@ CONSTANTS
   MaxDepth = 1
   Slice = "index"
   UseY = TRUE
-  Cats = {"assign-v", "mut"}
+  Cats = {"assign-v", "mut", "unpack"}
 INVARIANT Inhabited
 INVARIANT EmitDone
 CHECK_DEADLOCK FALSE
